@@ -522,14 +522,14 @@ func (analyser *BurndownAnalysis) Finalize() interface{} {
 		}
 		fileHistories[key], _ = analyser.groupSparseHistory(history, lastTick)
 		file := analyser.files[key]
-		if file == nil {
-			// the file exists only on a branch other than the one we take the result from
-			continue
-		}
 		previousLine := 0
 		previousAuthor := identity.AuthorMissing
 		ownership := map[int]int{}
 		fileOwnership[key] = ownership
+		if file == nil {
+			// the file exists only on a branch other than the one we take the result from
+			continue
+		}
 		file.ForEach(func(line, value int) {
 			length := line - previousLine
 			if length > 0 {
